@@ -18,6 +18,10 @@ theorem keepCached_eq (a b : Nat) : keepCached a b = decide (a ≥ b) := by
 reverting that repair breaks this obligation) -/
 theorem module_checks_source_name : moduleChecksSourceName = true := by decide
 
+/-- `_compile_from_file` decides "module file older than the source" before it imports the module file
+(regenerated from the source; importing first breaks this obligation) -/
+theorem stale_decided_before_import : staleDecidedBeforeImport = true := by decide
+
 theorem threshold_den_pos : 0 < thresholdDen := by decide
 theorem sort_is_descending : sortDescending = true := by decide
 theorem slice_is_from_capacity : sliceFromCapacity = true := by decide
